@@ -11,7 +11,8 @@ naming, the loop is characterised ABSTRACTLY here: any function `loop k kbreak x
     leaves through `kbreak` or goes on with a state in which `rel` has been decreased by that length and
     `lists` is unchanged,
 
-computes the model's `translate` (`ScanShape` / `scan_loop`).  In `SrcTie.lean` the projections `rel`,
+computes the model's `translate` (`ScanShape` / `scan_loop`; `EnumShape` / `scan_enum` for a loop over
+`enumerate(lists)`, `ListShape` / `scan_list` for a loop over the sub-lists with a hand-kept counter).  In `SrcTie.lean` the projections `rel`,
 `lsts` and the two state transformers are found by UNIFICATION against the generated definition
 (`fun _ _ _ _ _ => rfl`), so renumbered locals, extra locals, reordered assignments and fast paths in front
 of the loop do not disturb the proof.
@@ -298,6 +299,138 @@ theorem scan_enum_neg {S R : Type} {loop : (S → R) → (S → R) → List (Int
   have hl0 := PyRt.len_nonneg l
   simp only [pyEnumerate]
   rw [H.cons, if_pos ((H.test_iff 0 l s).2 (by omega))]
+  rw [PyRt.index_zero] at hb
+  exact hb
+
+/-! ## the same scan written over the sub-lists themselves (`for cur in lists:` with a hand-kept counter) -/
+
+structure ListShape {S R : Type} (loop : (S → R) → (S → R) → List (List α) → S → R)
+    (rel : S → Int) (test : List α → S → Prop)
+    (dec : ∀ l s, Decidable (test l s)) (exit : (S → R) → List α → S → R)
+    (nxt : List α → S → S) : Prop where
+  nil : ∀ k kb s, loop k kb [] s = k s
+  cons : ∀ k kb l xs s, loop k kb (l :: xs) s =
+      @ite R (test l s) (dec l s) (exit kb l s) (loop k kb xs (nxt l s))
+  test_iff : ∀ l s, test l s ↔ rel s < PyRt.len l
+  nxt_rel : ∀ l s, rel (nxt l s) = rel s - PyRt.len l
+
+theorem ListShape.of_swapped {S R : Type} {loop : (S → R) → (S → R) → List (List α) → S → R}
+    {rel : S → Int} {ntest : List α → S → Prop}
+    {dec : ∀ l s, Decidable (ntest l s)} {exit : (S → R) → List α → S → R}
+    {nxt : List α → S → S}
+    (nil : ∀ k kb s, loop k kb [] s = k s)
+    (cons : ∀ k kb l xs s, loop k kb (l :: xs) s =
+      @ite R (ntest l s) (dec l s) (loop k kb xs (nxt l s)) (exit kb l s))
+    (ntest_iff : ∀ l s, ntest l s ↔ ¬ rel s < PyRt.len l)
+    (nxt_rel : ∀ l s, rel (nxt l s) = rel s - PyRt.len l) :
+    ListShape loop rel (fun l s => ¬ ntest l s) (fun l s => @instDecidableNot _ (dec l s)) exit nxt where
+  nil := nil
+  cons := by
+    intro k kb l xs s
+    rw [cons]
+    by_cases h : ntest l s
+    · rw [if_pos h, if_neg (fun h' => h' h)]
+    · rw [if_neg h, if_pos h]
+  test_iff := by
+    intro l s
+    rw [ntest_iff]
+    exact Classical.not_not
+  nxt_rel := nxt_rel
+
+/-- counters (`f (nxt s) = f s + 1`) have advanced by the number of sub-lists skipped, fields the loop
+    body leaves alone are unchanged -/
+theorem scan_list {S R : Type} {loop : (S → R) → (S → R) → List (List α) → S → R}
+    {rel : S → Int} {test : List α → S → Prop}
+    {dec : ∀ l s, Decidable (test l s)} {exit : (S → R) → List α → S → R}
+    {nxt : List α → S → S}
+    (H : ListShape loop rel test dec exit nxt) (k kb : S → R) :
+    ∀ (suf pre : List (List α)) (r : Nat) (s : S), rel s = r → suf ≠ [] →
+      ∃ s', rel s' = ((translate suf r).2 : Int) ∧
+        (∀ (f : S → Int), (∀ l s, f (nxt l s) = f s + 1) → f s' = f s + ((translate suf r).1 : Int)) ∧
+        (∀ (f : S → List (List α)), (∀ l s, f (nxt l s) = f s) → f s' = f s) ∧
+        (loop k kb suf s
+            = exit kb (PyRt.index (pre ++ suf) (PyRt.len pre + ((translate suf r).1 : Int))) s' ∨
+         (loop k kb suf s
+            = k (nxt (PyRt.index (pre ++ suf) (PyRt.len pre + ((translate suf r).1 : Int))) s') ∧
+          PyRt.len pre + ((translate suf r).1 : Int) + 1 = PyRt.len (pre ++ suf))) := by
+  intro suf
+  induction suf with
+  | nil => intro pre r s _ h; exact absurd rfl h
+  | cons l rest ih =>
+    intro pre r s h2 _
+    have hl0 := PyRt.len_nonneg l
+    rw [H.cons]
+    have ht := H.test_iff l s
+    have hn2 := H.nxt_rel l s
+    rw [h2] at ht
+    cases rest with
+    | nil =>
+      simp only [translate]
+      by_cases hlt : (r : Int) < PyRt.len l
+      · rw [if_pos (ht.2 hlt)]
+        exact ⟨s, h2, fun _ _ => by simp, fun _ _ => rfl, Or.inl (by simp [PyRt.index_append_length])⟩
+      · rw [if_neg (fun h => hlt (ht.1 h)), H.nil]
+        exact ⟨s, h2, fun _ _ => by simp, fun _ _ => rfl, Or.inr ⟨by simp [PyRt.index_append_length],
+          by rw [PyRt.len_append, PyRt.len_cons, PyRt.len_nil]; simp⟩⟩
+    | cons l' ls =>
+      by_cases hlt : (r : Int) < PyRt.len l
+      · have hlt' : r < l.length := by unfold PyRt.len at hlt; omega
+        rw [if_pos (ht.2 hlt)]
+        exact ⟨s, by rw [h2]; simp [translate, hlt'], fun _ _ => by simp [translate, hlt'], fun _ _ => rfl,
+          Or.inl (by simp [translate, hlt', PyRt.index_append_length])⟩
+      · have hlt' : ¬ r < l.length := by unfold PyRt.len at hlt; omega
+        rw [if_neg (fun h => hlt (ht.1 h))]
+        have hpre : (PyRt.len pre + 1 : Int) = PyRt.len (pre ++ [l]) := by
+          rw [PyRt.len_append, PyRt.len_cons, PyRt.len_nil]; omega
+        have happ : pre ++ l :: l' :: ls = (pre ++ [l]) ++ (l' :: ls) := by simp
+        obtain ⟨s', hs1, hsc, hsf, hs2⟩ := ih (pre ++ [l]) (r - l.length) (nxt l s)
+          (by rw [hn2, h2]; simp only [PyRt.len]; omega) (by simp)
+        rw [← happ, ← hpre] at hs2
+        have hidx : PyRt.len pre + 1 + ((translate (l' :: ls) (r - l.length)).1 : Int)
+            = PyRt.len pre + ((translate (l :: l' :: ls) r).1 : Int) := by
+          simp only [translate, if_neg hlt']; push_cast; omega
+        rw [hidx] at hs2
+        refine ⟨s', ?_, ?_, fun f hf => by rw [hsf f hf, hf], hs2⟩
+        · rw [hs1]; simp only [translate, if_neg hlt']
+        · intro f hf
+          rw [hsc f hf, hf]
+          simp only [translate, if_neg hlt']; push_cast; omega
+
+theorem scan_list_eq {S R : Type} {loop : (S → R) → (S → R) → List (List α) → S → R}
+    {rel : S → Int} {test : List α → S → Prop}
+    {dec : ∀ l s, Decidable (test l s)} {exit : (S → R) → List α → S → R}
+    {nxt : List α → S → S}
+    (H : ListShape loop rel test dec exit nxt)
+    (k kb : S → R) (s : S) (lists : List (List α)) (r : Nat) (v : R)
+    (h2 : rel s = r) (hne : lists ≠ [])
+    (hb : ∀ s', rel s' = ((translate lists r).2 : Int) →
+      (∀ (f : S → Int), (∀ l s, f (nxt l s) = f s + 1) → f s' = f s + ((translate lists r).1 : Int)) →
+      (∀ (f : S → List (List α)), (∀ l s, f (nxt l s) = f s) → f s' = f s) →
+      exit kb (PyRt.index lists ((translate lists r).1 : Int)) s' = v)
+    (hk : ∀ s', rel s' = ((translate lists r).2 : Int) →
+      (∀ (f : S → Int), (∀ l s, f (nxt l s) = f s + 1) → f s' = f s + ((translate lists r).1 : Int)) →
+      (∀ (f : S → List (List α)), (∀ l s, f (nxt l s) = f s) → f s' = f s) →
+      ((translate lists r).1 : Int) + 1 = PyRt.len lists →
+      k (nxt (PyRt.index lists ((translate lists r).1 : Int)) s') = v) :
+    loop k kb lists s = v := by
+  obtain ⟨s', e2, ec, ef, e3⟩ := scan_list H k kb lists [] r s h2 hne
+  simp only [List.nil_append, PyRt.len_nil, Int.zero_add] at e2 e3
+  rcases e3 with e3 | ⟨e3, e4⟩
+  · rw [e3]; exact hb s' e2 ec ef
+  · rw [e3]; exact hk s' e2 ec ef e4
+
+theorem scan_list_neg {S R : Type} {loop : (S → R) → (S → R) → List (List α) → S → R}
+    {rel : S → Int} {test : List α → S → Prop}
+    {dec : ∀ l s, Decidable (test l s)} {exit : (S → R) → List α → S → R}
+    {nxt : List α → S → S}
+    (H : ListShape loop rel test dec exit nxt)
+    (k kb : S → R) (s : S) (lists : List (List α)) (v : R)
+    (h2 : rel s < 0) (hne : lists ≠ [])
+    (hb : exit kb (PyRt.index lists 0) s = v) :
+    loop k kb lists s = v := by
+  obtain ⟨l, rest, rfl⟩ := List.exists_cons_of_ne_nil hne
+  have hl0 := PyRt.len_nonneg l
+  rw [H.cons, if_pos ((H.test_iff l s).2 (by omega))]
   rw [PyRt.index_zero] at hb
   exact hb
 
